@@ -160,13 +160,13 @@ PROPS = {
                  'T8 rely: at every lock acquisition the store may have become ANY store satisfying the invariant (other threads keep the invariant); guarantee: this thread keeps it (lemmas of unit ptlookup)'],
     ),
     'C04': dict(
-        vx_units=['iobuffers', 'fusedevw', 'asyncdevw', 'virtiofsw', 'virtiofsw_async', 'writerenum', 'readerrd'], kx=['file_buf'],
+        vx_units=['iobuffers', 'fusedevw', 'asyncdevw', 'virtiofsw', 'virtiofsw_async', 'writerenum', 'readerrd', 'filebuf'], kx=['file_buf'],
         design_ref='DESIGN.md A.4',
         not_covered=[
             'IoBuffers::available_bytes (iterator fold): assumed contract (returns the number of addresses still covered when that fits in usize)',
             'virtio-queue / vm-memory themselves: DescriptorChain::{readable, writable} and their iterators, GuestMemory::find_region, GuestMemoryRegion::get_slice are models written from the texts of virtio-queue 0.17.0 / vm-memory 0.17.1 (indirect tables, the 2^32 cap of a chain are theirs); guest memory is a snapshot during one operation (a guest modifying a request buffer while it is read is not modelled); std read_exact / write_all are verified hand copies of the std text',
             'contents of the bytes a file transfer appends (that the file fills exactly what it reports is assumed); FuseDevWriter::write_all_from on an UNBUFFERED writer (stated as a precondition: a second round trips the writer\'s own assert - public-API observation F1, not reachable through the server); slice totals >= 2^64 in write_vectored',
-            'file-buffer adapters (FileVolatileSlice) as plain views: KX harnesses (see units kx:file_buf when listed), lengths up to the stated bound only',
+            'file-buffer adapters: FileVolatileSlice / FileVolatileBuf and `impl FileReadWriteVolatile for File` (the volatile_impl! instance, its default loops, the &mut T / Arc<T> forwarders, the async vectored functions) are proved for all lengths in unit filebuf against a model of vm-memory 0.17.1 VolatileSlice / Bytes written from its text; the Kani group kx:file_buf (lengths 0..4) remains as a bounded check that vm-memory\'s real code behaves like that model; NOT covered: slice lists longer than i32::MAX, the default vectored trait bodies (File overrides them), termination of the Interrupted-retry loops, async_file.rs itself (a model); API-level preconditions of the async vectored functions (buffers empty for a read / full for a write: observation F4)',
         ],
         trusted=['T3 vm_memory::VolatileSlice as (address, length) with offset() / subslice() as documented, ranges do not wrap the address space; VecDeque via vstd',
                  'T5 nix write/writev as opaque device writes guarded by a capability',
@@ -201,10 +201,10 @@ PROPS = {
                  'T8 contract-only syscall wrappers: open_inode, import, do_lookup, forget, create_file_excl, set_creds, drop_cap_fsetid, sync_fd, stat_fd (handles.py docstring A5); fewer than 2^64-1 handle allocations'],
     ),
     'C10': dict(
-        vx_units=['ovl_layer', 'ovl_real', 'ovl_merge', 'ovl_ops', 'ovl_inodes', 'ovl_view'], kx=[],
+        vx_units=['ovl_layer', 'ovl_real', 'ovl_merge', 'ovl_ops', 'ovl_inodes', 'ovl_view', 'ovl_bk'], kx=[],
         design_ref='DESIGN.md A.4 / A.6',
         not_covered=[
-            'equality of the whole visible tree with the overlayfs union over operation HISTORIES as one statement: decided are the union rules for ONE name over arbitrary layer listings, the "only the upper layer is ever modified" frame, and - since unit ovl_view - the live view per operation (load_directory enters exactly the union of the layers under fresh numbers, lookup_node / do_lookup resolve exactly the table entry, forget removes exactly the forgotten node, do_readdir lists every visible child once); not the bookkeeping inside the mutating operations beyond the clauses named in DESIGN A.4 (do_rm / do_create insert_child / insert_inode calls), import(), rename (unimplemented: EXDEV)',
+            'equality of the whole visible tree with the overlayfs union over operation HISTORIES as one statement: decided are the union rules for ONE name over arbitrary layer listings, the "only the upper layer is ever modified" frame, and - since unit ovl_view - the live view per operation (load_directory enters exactly the union of the layers under fresh numbers, lookup_node / do_lookup resolve exactly the table entry, forget removes exactly the forgotten node, do_readdir lists every visible child once); the bookkeeping inside the mutating operations is covered per operation by unit ovl_bk (create / mkdir / mknod / symlink / link enter exactly one new node with a fresh or remembered-and-free number; unlink / rmdir take exactly the node out, give up its reservation, leave a whiteout node as the whiteout rule says; copy-up leaves the view alone) under the invariants its lemmas take as hypotheses (reservation / table consistency over histories is not mechanised); known finding D26 (a failed whiteout creation leaves the name removed); LINK makes a node and a number of its own for the new name (observation K3); import(), rename (unimplemented: EXDEV)',
             'rename (unimplemented in the code: EXDEV), Drop / forget accounting, concurrency, non-UTF-8 names, special files',
         ],
         trusted=['A-LAYER-FN: the answer of a layer is a function of the arguments of the call (no contract relates two reads across a mutation); generated mini-model of trait FileSystem / Layer with read(2)/write(2) semantics over a file with data and cursor; kernel meaning of mknod and xattrs',
